@@ -118,6 +118,14 @@ impl FormMultipartData {
             }
 
             if bytes_read == total_bytes as i128 {
+                // the data ends inside the headers of a part: only a blank line after the
+                // closing delimiter of at least one complete part is a proper end
+                let is_blank_line_after_last_part =
+                    current_string_is_empty && part.headers.len() == 0 && part_list.len() > 0;
+                if !is_blank_line_after_last_part {
+                    let message = "No end boundary present in the multipart/form-data request body";
+                    return Err(message.to_string());
+                }
                 return Ok(part_list)
             }
 
